@@ -33,7 +33,14 @@ type compiler struct {
 	program *ast.Program
 	curStmt ast.Statement
 	inCheck bool
+
+	writeDepth int // nesting of collections currently being written
 }
+
+// maxWriteDepth bounds the nesting of collections an output tag prints, so
+// that a slice that (directly or indirectly) contains itself ends the output
+// there instead of overflowing the stack.
+const maxWriteDepth = 1000
 
 func (c *compiler) compile() (string, error) {
 	bb := &strings.Builder{}
@@ -77,6 +84,12 @@ func (c *compiler) compile() (string, error) {
 func (c *compiler) write(bb *strings.Builder, i interface{}) {
 	if rv := reflect.ValueOf(i); rv.Kind() == reflect.Ptr && rv.IsNil() {
 		// a nil pointer prints nothing, whatever it would point to
+		return
+	}
+
+	c.writeDepth++
+	defer func() { c.writeDepth-- }()
+	if c.writeDepth > maxWriteDepth {
 		return
 	}
 
